@@ -49,7 +49,10 @@ type concSpec struct {
 	// cbStages: callback stage numbers; cbPart0: the callback only sees items of part 0.
 	cbStages []int
 	cbPart0  bool
-	usesPipe bool
+	// endCbStages: callback stages whose owner is consumed directly by the harness (or is the
+	// reducer): there a callback returning the bare stream.End value is injected as well.
+	endCbStages []int
+	usesPipe    bool
 	// batchOut: the output batches come from Batch/BatchFunc, which may flush what it holds when
 	// its source fails: before a fatal error any cut of the prefix into non-empty batches is accepted.
 	batchOut bool
@@ -125,18 +128,18 @@ func concSubjects() []*concSpec {
 				return s[0], nil
 			},
 			ref: func(in []int, p concParams) []int { return evItems(in) }},
-		{name: "MapStream", nparts: 1, cbStages: []int{0},
+		{name: "MapStream", nparts: 1, cbStages: []int{0}, endCbStages: []int{0},
 			wire: func(e *env, s []stream.Stream[int], p concParams) (stream.Stream[int], stream.Stream[[]int]) {
 				return parallel.MapStream(bg, s[0], p.Par, p.Buf, cbMap(e, 0)), nil
 			},
 			ref: func(in []int, p concParams) []int { return evItems(refMap(in, mapFn)) }},
 		// pipelines of 2-3
-		{name: "Map(FlattenSlices(Batch))", nparts: 1, cbStages: []int{0},
+		{name: "Map(FlattenSlices(Batch))", nparts: 1, cbStages: []int{0}, endCbStages: []int{0},
 			wire: func(e *env, s []stream.Stream[int], p concParams) (stream.Stream[int], stream.Stream[[]int]) {
 				return stream.Map(stream.FlattenSlices(stream.Batch(s[0], p.MaxWait, p.BS)), cbMap(e, 0)), nil
 			},
 			ref: func(in []int, p concParams) []int { return evItems(refMap(in, mapFn)) }},
-		{name: "MapStream(FlattenSlices(Batch))", nparts: 1, cbStages: []int{0},
+		{name: "MapStream(FlattenSlices(Batch))", nparts: 1, cbStages: []int{0}, endCbStages: []int{0},
 			wire: func(e *env, s []stream.Stream[int], p concParams) (stream.Stream[int], stream.Stream[[]int]) {
 				return parallel.MapStream(bg, stream.FlattenSlices(stream.Batch(s[0], p.MaxWait, p.BS)), p.Par, p.Buf, cbMap(e, 0)), nil
 			},
@@ -150,7 +153,7 @@ func concSubjects() []*concSpec {
 			wire: func(e *env, s []stream.Stream[int], p concParams) (stream.Stream[int], stream.Stream[[]int]) {
 				return stream.Merge(stream.Map(s[0], cbMap(e, 0)), s[1]), nil
 			}},
-		{name: "MapStream(Merge(2))", nparts: 2, mode: modeInterleave, unmap: unmap1000, cbStages: []int{0},
+		{name: "MapStream(Merge(2))", nparts: 2, mode: modeInterleave, unmap: unmap1000, cbStages: []int{0}, endCbStages: []int{0},
 			wire: func(e *env, s []stream.Stream[int], p concParams) (stream.Stream[int], stream.Stream[[]int]) {
 				return parallel.MapStream(bg, stream.Merge(s...), p.Par, p.Buf, cbMap(e, 0)), nil
 			}},
@@ -159,7 +162,7 @@ func concSubjects() []*concSpec {
 				return nil, stream.Chunk(s[0], 2)
 			},
 			ref: func(in []int, p concParams) []int { return evGroups(refChunk(in, 2)) }},
-		{name: "MapStream(Filter(Pipe))", usesPipe: true, cbStages: []int{0, 1},
+		{name: "MapStream(Filter(Pipe))", usesPipe: true, cbStages: []int{0, 1}, endCbStages: []int{1},
 			wire: func(e *env, s []stream.Stream[int], p concParams) (stream.Stream[int], stream.Stream[[]int]) {
 				return parallel.MapStream(bg, stream.Filter(s[0], cbFilter(e, 0)), p.Par, p.Buf, cbMap(e, 1)), nil
 			},
@@ -170,7 +173,7 @@ func concSubjects() []*concSpec {
 				return parallel.MapStream(bg, s[0], p.Par, p.Buf, cbMap(e, 0)), nil
 			},
 			ref: func(in []int, p concParams) []int { return evItems(refMap(in, mapFn)) }},
-		{name: "Reduce(FlattenSlices(Batch))", nparts: 1, cbStages: []int{0}, reducer: "reduce",
+		{name: "Reduce(FlattenSlices(Batch))", nparts: 1, cbStages: []int{0}, reducer: "reduce", endCbStages: []int{0},
 			wire: func(e *env, s []stream.Stream[int], p concParams) (stream.Stream[int], stream.Stream[[]int]) {
 				return stream.FlattenSlices(stream.Batch(s[0], p.MaxWait, p.BS)), nil
 			},
@@ -188,7 +191,7 @@ func concSubjects() []*concSpec {
 func concBlockSubjects() []*concSpec {
 	bg := context.Background()
 	return []*concSpec{
-		{name: "MapStream[source blocks]", nparts: 1, cbStages: []int{0}, blocks: true,
+		{name: "MapStream[source blocks]", nparts: 1, cbStages: []int{0}, blocks: true, endCbStages: []int{0},
 			wire: func(e *env, s []stream.Stream[int], p concParams) (stream.Stream[int], stream.Stream[[]int]) {
 				return parallel.MapStream(bg, s[0], p.Par, p.Buf, cbMap(e, 0)), nil
 			},
@@ -775,6 +778,10 @@ func (cr *concRun) judge() (o concOutcome) {
 		}
 		if a.err == stream.End {
 			o.terminal = "end"
+			if fatal != nil && fatalErr == stream.End && a.fired {
+				// a callback failed with the bare End value: this End is the report of E
+				o.terminal = "fatal"
+			}
 			break
 		}
 		if firstFail < 0 {
@@ -944,6 +951,13 @@ func fewPositions(limit int, inclusive bool) []int {
 	if hi < 0 {
 		return nil
 	}
+	if hi <= 3 { // short inputs: every position
+		out := make([]int, 0, hi+1)
+		for p := 0; p <= hi; p++ {
+			out = append(out, p)
+		}
+		return out
+	}
 	out := []int{0}
 	for _, p := range []int{hi / 2, hi} {
 		if p != out[len(out)-1] {
@@ -957,7 +971,7 @@ func fewPositions(limit int, inclusive bool) []int {
 // every source and every callback stage.
 func concErrValueFaults(spec *concSpec, n int, nparts int, partLens []int) []fault {
 	var out []fault
-	for ek := 1; ek < nFatalErrKinds; ek++ {
+	for ek := 1; ek < ekBareEnd; ek++ {
 		if spec.usesPipe {
 			for _, p := range fewPositions(n, true) {
 				out = append(out, mkFatal(fkFatalSrc, 0, p, ek))
@@ -977,6 +991,11 @@ func concErrValueFaults(spec *concSpec, n int, nparts int, partLens []int) []fau
 			for _, p := range fewPositions(lim, false) {
 				out = append(out, mkFatal(fkFatalCb, k, p, ek))
 			}
+		}
+	}
+	for _, k := range spec.endCbStages {
+		for p := 0; p < n; p++ {
+			out = append(out, mkFatal(fkFatalCb, k, p, ekBareEnd))
 		}
 	}
 	return out
@@ -1003,7 +1022,7 @@ var (
 func concurrent(r *vkit.Report) {
 	subs := concSubjects()
 	maxLen := r.Scale(6, 8)
-	reps := r.Scale(20, 100)
+	reps := r.Scale(20, 60)
 	pairsPer := r.Scale(24, 60)
 	triplesPer := r.Scale(10, 30)
 
@@ -1011,7 +1030,7 @@ func concurrent(r *vkit.Report) {
 	type prepared struct {
 		cfg   concCfg
 		parts [][]int
-		half  bool // error-value scenarios: the value, not the timing, is the point - half the repetitions
+		half  bool // error-value scenarios: the value, not the timing, is the point - half the repetitions (a quarter for the library's own values)
 	}
 	var cfgs []prepared
 	for si, spec := range subs {
@@ -1039,7 +1058,7 @@ func concurrent(r *vkit.Report) {
 			// in sequences of faults, a quarter of the fatal ones carry one of the other error values
 			vary := func(f fault) fault {
 				if f.Kind.fatal() && rnd.Intn(4) == 0 {
-					return mkFatal(f.Kind, f.Target, f.Pos, 1+rnd.Intn(nFatalErrKinds-1))
+					return mkFatal(f.Kind, f.Target, f.Pos, 1+rnd.Intn(ekBareEnd-1))
 				}
 				return f
 			}
@@ -1102,10 +1121,15 @@ func concurrent(r *vkit.Report) {
 					fatals = append(fatals, mkFatal(fkFatalCb, k, p, 0))
 					cfgs = append(cfgs, prepared{cfg: concCfg{si, n, []fault{fatals[len(fatals)-1]}}, parts: parts})
 				}
-				for ek := 1; ek < nFatalErrKinds; ek++ {
+				for ek := 1; ek < ekBareEnd; ek++ {
 					for _, p := range fewPositions(lim, false) {
 						cfgs = append(cfgs, prepared{cfg: concCfg{si, n, []fault{mkFatal(fkFatalCb, k, p, ek)}}, parts: parts, half: true})
 					}
+				}
+			}
+			for _, k := range spec.endCbStages {
+				for p := 0; p < lim; p++ {
+					cfgs = append(cfgs, prepared{cfg: concCfg{si, n, []fault{mkFatal(fkFatalCb, k, p, ekBareEnd)}}, parts: parts, half: true})
 				}
 			}
 			for t := 0; t < 6 && len(fatals) > 0; t++ {
@@ -1133,7 +1157,7 @@ func concurrent(r *vkit.Report) {
 					fatals = append(fatals, mkFatal(fkFatalSrc, j, p, 0))
 					add(fatals[len(fatals)-1], false)
 				}
-				for ek := 1; ek < nFatalErrKinds; ek++ {
+				for ek := 1; ek < ekBareEnd; ek++ {
 					for _, p := range fewPositions(len(parts[j]), true) {
 						add(mkFatal(fkFatalSrc, j, p, ek), true)
 					}
@@ -1144,7 +1168,7 @@ func concurrent(r *vkit.Report) {
 					fatals = append(fatals, mkFatal(fkFatalCb, k, p, 0))
 					add(fatals[len(fatals)-1], false)
 				}
-				for ek := 1; ek < nFatalErrKinds; ek++ {
+				for ek := 1; ek < ekBareEnd; ek++ {
 					for _, p := range fewPositions(n, false) {
 						add(mkFatal(fkFatalCb, k, p, ek), true)
 					}
@@ -1183,6 +1207,9 @@ func concurrent(r *vkit.Report) {
 		nreps := reps
 		if pc.half {
 			nreps = reps / 2
+			if len(pc.cfg.fs) == 1 && pc.cfg.fs[0].Err >= ekNewFrom {
+				nreps = reps / 4
+			}
 		}
 		for rep := 0; rep < nreps; rep++ {
 			if stuckSeen.Load() >= 3 {
